@@ -473,6 +473,8 @@ func IsBoolNode(n Node) bool {
 //@ requires sign-only: op == UnaryPlus || op == UnaryMinus
 //@ assumes parts: (is[*NumericNode](node) ==> as[*NumericNode](node).numberNode != nil) && (is[*IntegerNode](node) ==> as[*IntegerNode](node).numberNode != nil)
 //@ ensures [C03 C04] some-node: present(r0)
+//@ ensures [C03] minus-flips-the-literal-sign: op == UnaryMinus && node.Next() == nil && is[*IntegerNode](node) && isInt(negated(as[*IntegerNode](node).numberNode.literal)) ==> is[*IntegerNode](r0) && fresh(as[*IntegerNode](r0)) && as[*IntegerNode](r0).numberNode.literal == negated(as[*IntegerNode](node).numberNode.literal)
+//@ ensures [C03 C04] minus-keeps-what-it-cannot-fold: op == UnaryMinus && node.Next() == nil && is[*IntegerNode](node) && !isInt(negated(as[*IntegerNode](node).numberNode.literal)) ==> is[*UnaryNode](r0) && as[*UnaryNode](r0).op == op && as[*UnaryNode](r0).operand == node
 //@ ensures [C03] plus-is-identity: op == UnaryPlus && node.Next() == nil && (is[*NumericNode](node) || is[*IntegerNode](node)) ==> r0 == node
 //@ ensures [C03] chained-literal-not-folded: node.Next() != nil ==> is[*UnaryNode](r0) && as[*UnaryNode](r0).op == op && as[*UnaryNode](r0).operand == node
 //@ ensures [C03] other-operand: !(is[*NumericNode](node) || is[*IntegerNode](node)) ==> is[*UnaryNode](r0) && as[*UnaryNode](r0).op == op && as[*UnaryNode](r0).operand == node
